@@ -1,5 +1,6 @@
 import JSight.TreeEvents
 import JSight.TreeSpans
+import JSight.TreeNested
 /-!
 # C06 — Lexical events faithfully describe the scanned text
 
@@ -32,6 +33,13 @@ theorem C06_spans (allow : Bool) (v : JA) (hv : v.Valid) (ws0 ws1 : List Cls) (h
   unfold events
   rw [hbs, hl]
   exact he
+
+/-- the delivered events form a properly nested begin/end sequence; every closing event pairs with the
+innermost open one and carries its begin offset -/
+theorem C06_nested (allow : Bool) (v : JA) (hv : v.Valid) (ws0 ws1 : List Cls) (h0 : IsWs ws0) (h1 : IsWs ws1)
+    (bs : List UInt8) (hbs : bs.map classify = ws0 ++ (v.render ++ ws1)) :
+    ∃ evs, events allow bs = .ok evs ∧ wn evs [] = true :=
+  ⟨_, C06_events_of_tree allow v hv ws0 ws1 h0 h1 bs hbs, evsAt_wellNested _ v⟩
 
 /-- RFC 8259 scalar tokens are what the tree's leaves may be: strings, numbers, the three words -/
 theorem C06_string_token (b : List Cls) (hb : StrBody b) : IsScalar (.quote :: (b ++ [.quote])) := string_isScalar b hb
